@@ -483,6 +483,10 @@ func (r *p2pRun) dispatcherPhase() *Violation {
 	if dl != "" {
 		return r.viol("dispatcher-deadlock", "%s (trace %s)", dl, coop.Trace())
 	}
+	if len(coop.Races) > 0 {
+		rc.St.Probes["subscriber-table-race"]++
+		return r.viol("subscriber-table-access-unsynchronised", "%s (the Go runtime aborts the process when such a pair overlaps; trace %s)", coop.Races[0], coop.Trace())
+	}
 	rc.St.Ops["p2p-ops"] += len(ops)
 	// exactly once per dispatch
 	for i, op := range ops {
